@@ -185,7 +185,7 @@ pub fn c07_profile() -> ChProfile {
         w_complete: 6,
         max_ops: 80,
         media: vec![Medium::Mem, Medium::Json, Medium::Bincode],
-        subscribers: vec![0, 0, 0, 2],
+        subscribers: vec![0, 0, 1, 2],
         dl_far: 6,
         dl_short: 5,
         dl_past: 2,
@@ -310,7 +310,8 @@ pub fn c18_profile() -> ChProfile {
         w_complete: 8,
         max_ops: 60,
         media: vec![Medium::Mem, Medium::Mem, Medium::Json, Medium::Bincode],
-        subscribers: vec![0, 0, 0, 2],
+        // 0 none, 1 a plain formatting subscriber (spans enabled, no OpenTelemetry layer), 2 OpenTelemetry layer
+        subscribers: vec![0, 0, 1, 1, 2],
         dl_far: 10,
         dl_short: 1,
         dl_past: 0,
@@ -332,7 +333,7 @@ pub fn c18_check(sc: &ChScenario) -> CaseResult {
     let mut max_depth_seen = 0usize;
     for c in &run.calls {
         let mut spans: Vec<(String, u64)> = vec![("caller".into(), c.trace.span_id)];
-        let mut expect: Option<(u128, bool)> = if sc.cfg.subscriber == 0 { Some((c.trace.trace_id, c.trace.sampled)) } else { None };
+        let mut expect: Option<(u128, bool)> = if sc.cfg.subscriber != 2 { Some((c.trace.trace_id, c.trace.sampled)) } else { None };
         for k in 0..depth {
             let Some(s) = v.sent.get(&(k, c.body)) else { break };
             max_depth_seen = max_depth_seen.max(k + 1);
@@ -384,8 +385,8 @@ pub fn c18_check(sc: &ChScenario) -> CaseResult {
             }
         }
     }
-    // concurrent requests never exchange trace contexts (no subscriber: injective as supplied)
-    if sc.cfg.subscriber == 0 {
+    // concurrent requests never exchange trace contexts (without an OpenTelemetry layer: injective as supplied)
+    if sc.cfg.subscriber != 2 {
         let mut seen: BTreeMap<u128, u64> = BTreeMap::new();
         for ((hop, body), s) in &v.sent {
             if *hop == 0 {
@@ -423,6 +424,9 @@ pub fn c18_check(sc: &ChScenario) -> CaseResult {
     }
     if sc.cfg.subscriber == 2 {
         classes.insert("otel-subscriber");
+    }
+    if sc.cfg.subscriber == 1 {
+        classes.insert("fmt-subscriber-without-otel");
     }
     let nontrivial = (concurrent >= 3 && cancels >= 1) || max_depth_seen >= 2;
     Ok(CaseOk { nontrivial, classes: classes.into_iter().collect(), excluded_known: 0 })
